@@ -129,6 +129,9 @@ pub struct Def {
     pub module: Vec<String>,
     pub name: String,
     pub params: Vec<String>,
+    /// parameters that some field uses as `#[codec(compact)] f: T`: only `HasCompact`
+    /// arguments (unsigned integers, `()`) may be supplied for them
+    pub compactable: Vec<bool>,
     pub body: Body,
     pub docs: Vec<String>,
 }
@@ -502,6 +505,16 @@ const COMMON: &[Prim] = &[Prim::U8, Prim::U32, Prim::Bool];
 struct Gen<'a> {
     rng: &'a mut Rng,
     defs: Vec<Def>,
+    /// compactable flags of the definition being generated
+    cur_compactable: Vec<bool>,
+}
+
+fn has_compact_arg(rng: &mut Rng) -> Ty {
+    if rng.chance(1, 4) {
+        Ty::Tuple(vec![])
+    } else {
+        Ty::Prim(*rng.pick(UINTS))
+    }
 }
 
 impl<'a> Gen<'a> {
@@ -525,18 +538,31 @@ impl<'a> Gen<'a> {
             50..=63 if me > 0 => {
                 let d = self.rng.usize_below(me);
                 let n = self.defs[d].params.len();
-                let args = (0..n).map(|_| self.ty(me, nparams, n_defs, depth + 1)).collect();
+                let args = (0..n)
+                    .map(|k| {
+                        if self.defs[d].compactable[k] {
+                            has_compact_arg(self.rng)
+                        } else {
+                            self.ty(me, nparams, n_defs, depth + 1)
+                        }
+                    })
+                    .collect();
                 Ty::Adt(d, args)
             }
             64..=70 => Ty::Vec(Box::new(self.ty(me, nparams, n_defs, depth + 1))),
             71..=75 => Ty::Opt(Box::new(self.ty(me, nparams, n_defs, depth + 1))),
             76..=79 => {
-                let n = self.rng.usize_below(4);
+                // mostly small tuples, now and then up to arity 13
+                let n = if self.rng.chance(1, 12) {
+                    4 + self.rng.usize_below(10)
+                } else {
+                    self.rng.usize_below(4)
+                };
                 Ty::Tuple((0..n).map(|_| self.ty(me, nparams, n_defs, depth + 1)).collect())
             }
             80..=82 => Ty::Array(
                 Box::new(self.ty(me, nparams, n_defs, depth + 1)),
-                *self.rng.pick(&[0u32, 1, 2, 4, 32]),
+                *self.rng.pick(&[0u32, 1, 2, 4, 32, 32, 256, 65_536, u32::MAX]),
             ),
             83..=85 => Ty::Boxed(Box::new(self.ty(me, nparams, n_defs, depth + 1))),
             86..=87 => Ty::Res(
@@ -586,6 +612,18 @@ impl<'a> Gen<'a> {
             let mut ty = self.ty(me, nparams, n_defs, 0);
             let mut compact = false;
             if matches!(ty, Ty::Prim(p) if UINTS.contains(&p)) && self.rng.chance(1, 6) {
+                compact = true;
+            }
+            // `#[codec(compact)] f: T` for a parameter reserved for HasCompact arguments,
+            // and now and then the legal oddity `#[codec(compact)] f: ()`
+            if nparams > 0 && self.rng.chance(1, 3) {
+                if let Some(i) = (0..nparams).find(|i| self.cur_compactable[*i]) {
+                    ty = Ty::Param(i);
+                    compact = true;
+                }
+            }
+            if self.rng.chance(1, 40) {
+                ty = Ty::Tuple(vec![]);
                 compact = true;
             }
             if nparams > 0 && self.rng.chance(1, 14) {
@@ -658,15 +696,25 @@ pub fn program(rng: &mut Rng) -> Program {
         vec!["other_crate".into(), "types".into()],
     ];
     let names = ["Foo", "Bar", "Baz", "Qux", "Node", "Item", "Call", "Event", "Data", "Info", "Wrapper"];
-    let mut g = Gen { rng, defs: vec![] };
+    let mut g = Gen {
+        rng,
+        defs: vec![],
+        cur_compactable: vec![],
+    };
     for i in 0..n_defs {
-        let nparams = match g.rng.below(10) {
-            0..=4 => 0,
-            5..=7 => 1,
-            8 => 2,
-            _ => 3,
+        let nparams = match g.rng.below(20) {
+            0..=9 => 0,
+            10..=15 => 1,
+            16..=17 => 2,
+            18 => 3,
+            _ => 4 + g.rng.usize_below(3),
         };
-        let params: Vec<String> = ["T", "U", "V"][..nparams].iter().map(|s| s.to_string()).collect();
+        let params: Vec<String> = ["T", "U", "V", "W", "X", "Y"][..nparams]
+            .iter()
+            .map(|s| s.to_string())
+            .collect();
+        let compactable: Vec<bool> = (0..nparams).map(|_| g.rng.chance(1, 6)).collect();
+        g.cur_compactable = compactable.clone();
         let module = g.rng.pick(&modules).clone();
         // the same identifier may recur in different modules (paths stay distinct)
         let base = g.rng.pick(&names).to_string();
@@ -694,6 +742,9 @@ pub fn program(rng: &mut Rng) -> Program {
                 if g.rng.chance(1, 5) {
                     idx = idx.saturating_add(1 + g.rng.below(20) as u8);
                 }
+                if v + 1 == nv && g.rng.chance(1, 10) {
+                    idx = 255;
+                }
                 vs.push(VariantDef {
                     name: format!("V{v}"),
                     index: idx,
@@ -712,6 +763,7 @@ pub fn program(rng: &mut Rng) -> Program {
             module,
             name,
             params,
+            compactable,
             body,
             docs,
         });
@@ -734,7 +786,15 @@ pub fn program(rng: &mut Rng) -> Program {
             1 + rng.usize_below(3)
         };
         for _ in 0..n_inst {
-            let args: Vec<Ty> = d.params.iter().map(|_| rng.pick(&pool).clone()).collect();
+            let args: Vec<Ty> = (0..d.params.len())
+                .map(|k| {
+                    if d.compactable[k] {
+                        has_compact_arg(rng)
+                    } else {
+                        rng.pick(&pool).clone()
+                    }
+                })
+                .collect();
             let t = Ty::Adt(i, args);
             if rng.chance(2, 3) || roots.is_empty() {
                 roots.push(t.clone());
@@ -844,6 +904,7 @@ mod mirror {
             module: module.clone(),
             name: "Leaf".into(),
             params: vec![],
+            compactable: vec![],
             body: Body::Struct(Fields::Named(vec![nf("v", p(Prim::U8))])),
             docs: vec![],
         };
@@ -851,6 +912,7 @@ mod mirror {
             module: module.clone(),
             name: "Foo".into(),
             params: vec!["T".into(), "U".into()],
+            compactable: vec![false, false],
             body: Body::Struct(Fields::Named(vec![
                 nf("a", Ty::Param(0)),
                 nf("b", Ty::Vec(b(Ty::Param(1)))),
@@ -877,6 +939,7 @@ mod mirror {
             module: module.clone(),
             name: "En".into(),
             params: vec!["T".into()],
+            compactable: vec![false],
             body: Body::Enum(vec![
                 VariantDef {
                     name: "A".into(),
@@ -912,6 +975,7 @@ mod mirror {
             module: module.clone(),
             name: "Tup".into(),
             params: vec!["T".into()],
+            compactable: vec![false],
             body: Body::Struct(Fields::Unnamed(vec![
                 uf(Ty::Param(0)),
                 uf(p(Prim::U32)),
@@ -923,6 +987,7 @@ mod mirror {
             module: module.clone(),
             name: "Unit".into(),
             params: vec![],
+            compactable: vec![],
             body: Body::Struct(Fields::Unit),
             docs: vec![],
         };
@@ -930,6 +995,7 @@ mod mirror {
             module,
             name: "Root".into(),
             params: vec![],
+            compactable: vec![],
             body: Body::Struct(Fields::Named(vec![
                 nf("a", Ty::Adt(1, vec![p(Prim::U8), p(Prim::U32)])),
                 nf("b", Ty::Adt(1, vec![p(Prim::U32), p(Prim::U32)])),
